@@ -396,9 +396,23 @@ class Model:
                     return Agg("Some", [old])
             mp.f.append(Agg("entry", [k, args[2]]))
             return Agg("None", [])
+        if re.match(r"^<Vec<.*> as Zeroize>::zeroize$", fn):
+            # zeroize on a Vec wipes the elements and clears it
+            args[0].get().f[:] = []
+            return Agg("tuple", [])
+        m = re.match(r"^(alloc::vec::)?Vec::<.*>::resize$", fn)
+        if m:
+            v = args[0].get()
+            n = args[1]
+            if not n.conc():
+                raise Unsupported("symbolic resize")
+            while len(v.f) < n.t:
+                v.f.append(copy_val(args[2]))
+            del v.f[n.t:]
+            return Agg("tuple", [])
         if fn == "BTreeMap::<u8, Point>::keys":
             mp = deref(args[0])
-            return Iter_([copy_val(e.f[0]) for e in sorted(mp.f, key=lambda e: e.f[0].t)])
+            return Iter_([Ref(Cell(copy_val(e.f[0]))) for e in sorted(mp.f, key=lambda e: e.f[0].t)])
         if re.match(r"^<.* as Iterator>::(copied|cloned)(::<.*>)?$", fn) and isinstance(args[0], Iter_):
             return Iter_([copy_val(deref(x)) for x in args[0].items])
         if fn == "BTreeMap::<u8, Point>::get::<u8>":
